@@ -370,13 +370,13 @@ From Coq Require Import List. Import ListNotations.
    What `ln -sf` is handed for a generated file linked elsewhere in the build tree is the input's path relative to the
    directory OF THE LINK; read from that directory it names the input again, for all directory names (data -> data2,
    lib -> lib64 included).  The guard is the one of C12_relpath_append (finding C12-relpath-drive-like). *)
-Theorem C02_symlink_target_resolves : forall fl input output,
+Theorem C02_symlink_target_resolves : forall input output,
   wfp input -> wfp output -> p_root input = p_root output -> root_eqb (p_root input) Absolute = false ->
   p_destdir input = p_destdir output ->
   is_nil (suffix_str output) = false -> nodrive [last (p_comps output) []] ->
   (common_len (removelast (p_comps output)) (p_comps input) = length (removelast (p_comps output)) ->
    nodrive (skipn (common_len (removelast (p_comps output)) (p_comps input)) (p_comps input))) ->
-  exists d s r, parent output = Some d /\ symlink_target fl input output = Some s /\
+  exists d s r, parent output = Some d /\ symlink_target Posix input output = Some s /\
                 append d s = Some r /\ path_eqb r input = true.
 Proof. exact symlink_target_resolves. Qed.
 Print Assumptions C02_symlink_target_resolves.
